@@ -299,3 +299,33 @@ Proof. unfold encode_c20. destruct (cp_depth cp); cbn [bind]; try reflexivity. r
 
 Lemma pal256_exact_byte c : (pal256_exact c < 256)%N.
 Proof. destruct (pal256_exact_optimal c) as [H _]. lia. Qed.
+
+(* ---------- C20: the bytes carry the reduced colour of every role ---------- *)
+Definition colours_fm (fg bg ul : rgba) : facemod :=
+  mkFM false (Some fg) (Some bg) None (Some ul) None None None None.
+
+Definition only_colours (fg bg ul : option colour) : rtrans :=
+  mkRT None None None None None None None fg bg ul false.
+
+Theorem c20_roles d gl ki fg bg ul :
+  rgba_ok fg = true -> rgba_ok bg = true -> rgba_ok ul = true ->
+  exists bs,
+    encode_c20 (mkCaps d gl ki) (FaceModify (colours_fm fg bg ul)) = Ok bs /\
+    vt_complete bs = true /\
+    vt_ops bs =
+      [OSgr match d with
+            | TrueColor => only_colours (Some (CRgb (cr fg) (cg fg) (cb fg))) (Some (CRgb (cr bg) (cg bg) (cb bg)))
+                                        (Some (CRgb (cr ul) (cg ul) (cb ul)))
+            | EightBit => only_colours (Some (CIdx (pal256_exact fg))) (Some (CIdx (pal256_exact bg)))
+                                       (Some (CIdx (pal256_exact ul)))
+            | Gray => only_colours (Some (CIdx (gray_entry (gray4_exact fg)))) (Some (CIdx (gray_entry (gray4_exact bg))))
+                                   None     (* an underline colour has no grey rendering: nothing is sent *)
+            end].
+Proof.
+  intros Hf Hb Hu.
+  assert (Hok : cmd_ok (FaceModify (colours_fm fg bg ul)) = true).
+  { cbn [cmd_ok colours_fm fm_fg fm_bg fm_ucolor orgba_ok]. rewrite Hf, Hb, Hu. reflexivity. }
+  destruct (encode_meaning pal256_exact gray4_exact pal256_exact_byte (mkCaps d gl ki) _ Hok) as (bs & E & M & C).
+  exists bs. rewrite encode_c20_eq. split; [exact E|]. split; [apply C; reflexivity|].
+  rewrite M. destruct d; reflexivity.
+Qed.
